@@ -120,12 +120,14 @@ func (g *wgen) run(seed uint64, proc, idx int) proto.RunRec {
 		}
 		if nt > 16 && g.e != nil {
 			// a crowd makes cheap calls only
-			for tries := 0; tries < 8 && g.e.Steps[pool[0]] > 40000; tries++ {
-				pool[0], pool[len(pool)-1] = pool[len(pool)-1], pool[0]
-				pool = pool[:len(pool)-1]
-				if len(pool) == 1 {
-					break
+			cheap := pool[:0:0]
+			for _, c := range pool {
+				if g.e.Steps[c] <= 40000 {
+					cheap = append(cheap, c)
 				}
+			}
+			if len(cheap) > 0 {
+				pool = cheap
 			}
 		}
 		var tr proto.TaskRec
